@@ -343,7 +343,11 @@ func c14EndToEnd(w *h.W, r *h.Rng, batch int) {
 			spreadMin := h.Pick(cr, []int{3, 11, 60, 600, 1441, 1800})
 			spreads = append(spreads, spreadMin)
 			base := now - uint64(spreadMin)*60000 - uint64(cr.Intn(3600000))
-			c := gen.MakeCorpus(cr, gen.CorpusOpt{N: cr.LogInt(3, 200), Vocab: 4, MIDSpread: spreadMin * 60000 / 3, MaxToks: 2, BaseMID: base, Tag: fmt.Sprintf("b%ds%df%d", batch, si, f)})
+			n := cr.LogInt(3, 200)
+			if batch%3 == 0 && f == 0 {
+				n = cr.Range(4500, 13000) // several ID blocks (4096 IDs each): the range-to-position narrowing crosses block borders
+			}
+			c := gen.MakeCorpus(cr, gen.CorpusOpt{N: n, Vocab: 4, MIDSpread: spreadMin * 60000 / 3, MaxToks: 2, BaseMID: base, Tag: fmt.Sprintf("b%ds%df%d", batch, si, f)})
 			// clustered in a few minutes with long gaps: the occupancy map has holes
 			for _, d := range c.Docs {
 				if cr.Chance(2, 3) {
